@@ -620,6 +620,9 @@ impl Store {
                 &entry.implies,
             );
         }
+        if let Err(reason) = crate::criteria::check_criteria_table(&self.audits.criteria) {
+            errors.push(StoreValidateError::InvalidCriteriaTable(reason));
+        }
         for (_package, entries) in &self.audits.audits {
             for entry in entries {
                 // TODO: check that new_criteria isn't shadowing a builtin criteria
